@@ -1421,6 +1421,12 @@ func (l *lexer) scanParamExpInBraces() bool {
 	if r, err = l.read(); err != nil {
 		goto Error
 	}
+	if pe.Op == "#" && r != '}' {
+		// the string length takes no further operator
+		l.unread()
+		err = errParamExp
+		goto Error
+	}
 Op:
 	switch r {
 	case ':':
